@@ -40,6 +40,7 @@ type g2lUnit struct {
 	absSigs   map[string]string // Lean parameter name -> Lean type ("node" -> "H → H → H")
 	absVars   map[string]string // Go package variable -> Lean parameter name ("emptyHash" -> "empty")
 	pkgVars   map[string]string // Go package variable -> Lean constant (regenerated table in Generated/Facts.lean)
+	ignoreCalls map[string]bool // method names whose calls (as statements) are dropped: "Close"
 	errFields map[string]bool   // error struct types whose (string / integer) fields are kept in the error text
 	errCarry  map[string]bool   // error struct types whose single field is returned in the (otherwise nil) first result slot
 	nonNilIfaces map[string]bool // interface-typed values of these types are never nil (`x == nil` is false)
@@ -163,6 +164,9 @@ type g2lFn struct {
 	inoutName string            // Lean name of the in-out parameter of this function
 	inoutIdx  int               // its position among the parameters (receiver first)
 	endK      kont
+	closures  map[types.Object]*g2lClosure
+	closOuts  []string // while compiling a closure body: the captured variables it modifies (returned with the result)
+	inClosure bool
 	labels    map[string]int    // top-level labels of the body -> statement index
 	effType  string
 	usedName map[string]bool
@@ -322,6 +326,9 @@ func (f *g2lFn) leanType(t types.Type, at ast.Node) string {
 			return f.leanType(p.Elem(), at)
 		}
 	}
+	if st, ok := t.Underlying().(*types.Struct); ok && st.NumFields() == 0 {
+		return "Unit"
+	}
 	switch u := t.Underlying().(type) {
 	case *types.Map:
 		return "(List (" + f.leanType(u.Key(), at) + " × " + f.leanType(u.Elem(), at) + "))"
@@ -386,6 +393,9 @@ func (f *g2lFn) zero(t types.Type, at ast.Node) string {
 				return "(default : " + f.structType(n.Obj().Name()) + ")"
 			}
 		}
+	}
+	if st, ok := t.Underlying().(*types.Struct); ok && st.NumFields() == 0 {
+		return "()"
 	}
 	switch t.Underlying().(type) {
 	case *types.Map:
@@ -750,6 +760,9 @@ func (f *g2lFn) composite(b *binds, e *ast.CompositeLit) string {
 		}
 		return "([" + strings.Join(parts, ", ") + "] : " + f.leanType(t, e) + ")"
 	case *types.Struct:
+		if u.NumFields() == 0 {
+			return "()"
+		}
 		name := f.leanType(t, e)
 		if len(e.Elts) == 0 {
 			return "(default : " + name + ")"
@@ -960,4 +973,14 @@ func isBytesBuffer(t types.Type) bool {
 	}
 	n, ok := t.(*types.Named)
 	return ok && n.Obj().Name() == "Buffer" && n.Obj().Pkg() != nil && n.Obj().Pkg().Path() == "bytes"
+}
+
+// a local closure `name := func(params) results { … }`: hoisted like a loop; captured variables it only reads are extra
+// parameters, captured variables it assigns are passed in and returned with the result
+type g2lClosure struct {
+	lean     string
+	captured []string
+	modified []string
+	modV     []*types.Var
+	capV     []*types.Var
 }
